@@ -20,6 +20,7 @@ package dns
 
 import (
 	"context"
+	"errors"
 	"net"
 	"strconv"
 	"strings"
@@ -88,7 +89,19 @@ func (e ExtResolver) exchange(ctx context.Context, msg *dns.Msg) (*dns.Msg, erro
 	var resp *dns.Msg
 	var lastErr error
 	for _, srv := range e.Cfg.Servers {
-		resp, _, lastErr = e.cl.ExchangeContext(ctx, msg, net.JoinHostPort(srv, e.Cfg.Port))
+		addr := net.JoinHostPort(srv, e.Cfg.Port)
+		resp, _, lastErr = e.cl.ExchangeContext(ctx, msg, addr)
+		if lastErr == nil && resp.Truncated {
+			// The response did not fit into the UDP payload size we advertised:
+			// records are missing from it (possibly all of them). It must not
+			// be used (RFC 2181 Section 9), repeat the query over TCP.
+			tcpCl := *e.cl
+			tcpCl.Net = "tcp"
+			resp, _, lastErr = tcpCl.ExchangeContext(ctx, msg, addr)
+			if lastErr == nil && resp.Truncated {
+				lastErr = errors.New("dns: truncated response over TCP when looking up " + msg.Question[0].Name)
+			}
+		}
 		if lastErr != nil {
 			continue
 		}
